@@ -4,6 +4,7 @@ package domainproxy
 
 import (
 	"context"
+	"sync/atomic"
 	"fmt"
 	"net/http"
 	"net/http/httptest"
@@ -71,9 +72,24 @@ func c19StartRedis(t testing.TB) *c19Redis {
 }
 
 // c19NoClose keeps a shared tier open when one hybrid storage is closed.
-type c19NoClose struct{ *vk.Gated }
+type c19NoClose struct {
+	*vk.Gated
+	post *atomic.Value // func(op, key string): a scheduling point AFTER a read returned (nil = none)
+}
 
 func (c19NoClose) Close() error { return nil }
+
+// Get adds an optional gate after the inner read: the value has been sampled but not
+// yet handed to the caller (a slow storage read).
+func (c c19NoClose) Get(key string) (any, error) {
+	v, err := c.Gated.Get(key)
+	if c.post != nil {
+		if f, _ := c.post.Load().(func(op, key string)); f != nil {
+			f("Get.ret", key)
+		}
+	}
+	return v, err
+}
 
 type c19Routed struct {
 	Client int64
@@ -126,12 +142,21 @@ type c19World struct {
 	kind   string
 	nodes  []*c19Node
 	gates  []*vk.Gated
+	post   *atomic.Value
 	cancel context.CancelFunc
+}
+
+// SetPostHook installs the after-read hook of the shared tier (nil = none).
+func (w *c19World) SetPostHook(f func(op, key string)) {
+	if w.post != nil {
+		w.post.Store(f)
+	}
 }
 
 type c19WorldOpts struct {
 	counterTTL time.Duration // hybrid DefaultCacheTTL override (0 = repository default, 1h)
 	sharedTTL  time.Duration // hybrid SharedCacheTTL override (0 = repository default, 1h)
+	postRead   bool          // shared tier: extra scheduling point after every read returned
 	persist    bool          // attach a persistent tier (map-backed double) and enable persistence
 }
 
@@ -175,6 +200,10 @@ func c19NewWorld(t testing.TB, kind string, rd *c19Redis, o c19WorldOpts) *c19Wo
 			t.Fatalf("[setup failed] store kind %s needs redis", kind)
 		}
 		rd.mr.FlushAll()
+		if o.postRead {
+			w.post = &atomic.Value{}
+			w.post.Store((func(op, key string))(nil))
+		}
 		sh := vk.NewGated("redis", rd.st)
 		w.gates = append(w.gates, sh)
 		n := 1
@@ -188,7 +217,7 @@ func c19NewWorld(t testing.TB, kind string, rd *c19Redis, o c19WorldOpts) *c19Wo
 			}
 			g := vk.NewGated(name, mem())
 			w.gates = append(w.gates, g)
-			stores = append(stores, storage.NewHybridStorageWithSharedCache(ctx, g, c19NoClose{sh}, pers, cfg()))
+			stores = append(stores, storage.NewHybridStorageWithSharedCache(ctx, g, c19NoClose{Gated: sh, post: w.post}, pers, cfg()))
 		}
 	default:
 		t.Fatalf("[setup failed] unknown store kind %s", kind)
@@ -230,6 +259,8 @@ type c19Op struct {
 	Host   string `json:"host,omitempty"` // lookup
 	Node   int    `json:"node,omitempty"`
 	ViaSrv bool   `json:"via_http,omitempty"` // lookup through ServeHTTP instead of lookupMapping
+	Pin    bool   `json:"pin_node,omitempty"` // keep Node as given (default: node = thread index)
+	Strict bool   `json:"strict,omitempty"`   // lookup judged by the state at its start: everything its own thread completed before it
 }
 
 func (o c19Op) full() string { return o.Sub + "." + o.Base }
@@ -500,6 +531,18 @@ func (tr *c19Truth) maybe(name string) bool {
 	return false
 }
 
+// c19ExactReadings lists the verbatim names a Host header spells (port stripped).
+func c19ExactReadings(host string) []string {
+	out := []string{host}
+	if i := strings.LastIndexByte(host, ':'); i >= 0 {
+		out = append(out, host[:i])
+	}
+	if i := strings.IndexByte(host, ':'); i >= 0 && host[:i] != out[len(out)-1] {
+		out = append(out, host[:i])
+	}
+	return out
+}
+
 // c19Readings lists the names a Host header may be read as (most lenient reading).
 func c19Readings(host string) []string {
 	seen := map[string]bool{}
@@ -529,21 +572,38 @@ func c19JudgeRoute(tr *c19Truth, r c19Res) (class string, expect any) {
 	if !r.Routed {
 		return "", nil
 	}
+	// names are claimed verbatim (case-sensitive): a live claim spelled exactly like the
+	// Host (port stripped) takes precedence; only without one the lenient,
+	// case-insensitive / trailing-dot reading applies
 	var cands []*c19Claim
 	double := false
-	for _, name := range c19Readings(r.Op.Host) {
+	for _, name := range c19ExactReadings(r.Op.Host) {
 		l := tr.live[name]
 		if len(l) > 1 {
 			double = true
 		}
 		cands = append(cands, l...)
 	}
+	lenient := map[string]bool{}
+	for _, name := range c19Readings(r.Op.Host) {
+		lenient[name] = true
+	}
+	if len(cands) == 0 && !double {
+		for name, l := range tr.live {
+			if lenient[strings.ToLower(name)] {
+				if len(l) > 1 {
+					double = true
+				}
+				cands = append(cands, l...)
+			}
+		}
+	}
 	if double {
 		return "", nil // R1 is reported separately; no single owner to compare with
 	}
 	if len(cands) == 0 {
-		for _, name := range c19Readings(r.Op.Host) {
-			if tr.touched[name] {
+		for name := range tr.touched {
+			if lenient[strings.ToLower(name)] {
 				return "routes-after-delete", nil
 			}
 		}
@@ -580,12 +640,12 @@ func c19JudgeInflight(all []c19Op, r c19Res) string {
 		byNo[o.No] = o
 	}
 	for _, o := range all {
-		if o.K == "create" && names[o.full()] && o.C == r.RClient && c19TargetHost(o.C) == r.RHost && c19CreatePort(o.No) == r.RPort {
+		if o.K == "create" && names[strings.ToLower(o.full())] && o.C == r.RClient && c19TargetHost(o.C) == r.RHost && c19CreatePort(o.No) == r.RPort {
 			return ""
 		}
 		// or the target its owner was moving it to
 		if o.K == "update" && o.Upd == "port" {
-			if c, ok := byNo[o.Ref]; ok && c.K == "create" && names[c.full()] && c.C == r.RClient && c19TargetHost(c.C) == r.RHost && c19UpdatePort(o.No) == r.RPort {
+			if c, ok := byNo[o.Ref]; ok && c.K == "create" && names[strings.ToLower(c.full())] && c.C == r.RClient && c19TargetHost(c.C) == r.RHost && c19UpdatePort(o.No) == r.RPort {
 				return ""
 			}
 		}
